@@ -239,7 +239,10 @@ def judge_relay(cfg, stage, how):
             script = {'auth': 'stall-after-334'}
         if cfg.get('helo_fallback') and stage not in ('banner', 'ehlo'):
             script['ehlo'] = '500'
+        if cfg.get('refused_but_354'):
+            script.update({'rcpt0': '5', 'rcpt1': '5', 'data354': True})
     c.pop('helo_fallback', None)
+    c.pop('refused_but_354', None)
     c['script'] = script
     if c.pop('concurrent', False):
         # two attempts at the same moment through one relay object: each is bounded by ITS OWN timeouts, a stalled peer of
@@ -264,7 +267,7 @@ def judge_relay(cfg, stage, how):
     base = {'side': 'relay', 'lmtp': bool(cfg.get('lmtp')), 'pipelining': bool(cfg.get('pipelining', True))}
     desc = 'relay %s%s%s n=%d, peer %ss at %s: attempt -> %s at t=%r' % (
         'LMTP' if cfg.get('lmtp') else 'SMTP', '' if cfg.get('pipelining', True) else ' no-pipelining',
-        ''.join(' %s=%r' % (k, cfg[k]) for k in ('tls', 'auth', 'helo_fallback') if cfg.get(k)), cfg['n'], how, stage, whole, rec['end'])
+        ''.join(' %s=%r' % (k, cfg[k]) for k in ('tls', 'auth', 'helo_fallback', 'refused_but_354') if cfg.get(k)), cfg['n'], how, stage, whole, rec['end'])
     out = []
     if stage == 'connect':
         limit = 7.0
@@ -285,7 +288,9 @@ def judge_relay(cfg, stage, how):
     if how.startswith('stall') or stage == 'connect':
         if rec['end'] > limit + 1e-6:
             out.append((dict(base, kind='attempt-returned-late', stage=stage.rstrip('0123456789'), how=how), desc + ' (limit %g)' % limit))
-        if not all(v in ('temp', 'delivered', 'perm') for v in per.values()) or (whole.startswith('raised') and whole != 'raised:temp'):
+        if cfg.get('refused_but_354'):
+            pass            # every recipient was refused with 5xx: a permanent result is right, only the time bound is at stake
+        elif not all(v in ('temp', 'delivered', 'perm') for v in per.values()) or (whole.startswith('raised') and whole != 'raised:temp'):
             out.append((dict(base, kind='timeout-not-transient', stage=stage.rstrip('0123456789'), how=how), desc))
     else:
         # trickled reply: either it completes inside the scope (then the session goes on) or the scope's timeout fires
@@ -312,6 +317,9 @@ def relay_cases(tier):
                 yield cfg, st, 'trickle'
         if cfg.get('auth'):
             yield cfg, 'auth', 'stall-after-334'
+    # every recipient refused, DATA answered 354 all the same, then silence behind the lone dot the client has to send
+    for pl in (True, False):
+        yield dict(lmtp=False, pipelining=pl, n=2, refused_but_354=True), 'eod', 'stall'
     for lmtp in (False, True):
         for st in ('connect', 'banner', 'mail', 'eod0' if lmtp else 'eod'):
             for ps in (None, 2):
